@@ -380,11 +380,14 @@ class PreferenceProfile:
             return False
         pp_1 = self.condense_ballots()
         pp_2 = other.condense_ballots()
-        for b in pp_1.ballots:
-            if b not in pp_2.ballots:
+        # a ballot type whose total weight is zero counts the same as one that is absent
+        ballots_1 = [b for b in pp_1.ballots if b.weight != 0]
+        ballots_2 = [b for b in pp_2.ballots if b.weight != 0]
+        for b in ballots_1:
+            if b not in ballots_2:
                 return False
-        for b in pp_2.ballots:
-            if b not in pp_1.ballots:
+        for b in ballots_2:
+            if b not in ballots_1:
                 return False
         return True
 
